@@ -26,6 +26,13 @@ struct Gen {
     Op c16Op(int maxCells);
     Op anyOp(int scale, int forcedFn = -1);  // C18: any exported function; scale 0..2
 
+    // --- fixed catalogue: structures that must be covered whatever the seed
+    //     (every pentagon at every resolution); index -> op, seed-independent
+    static int64_t catalogueC17Size();
+    bool catalogueC17(int64_t idx, Op &op);
+    static int64_t catalogueC16Size();
+    bool catalogueC16(int64_t idx, Op &op);
+
     // --- pieces
     Op compactOp();
     Op diskOp(bool distancesFn);
